@@ -336,7 +336,17 @@ func (o cliOpt) sx() string {
 func (o cliOpt) build(w *cliWorld) tp.ClientOption {
 	switch o.kind {
 	case "http":
-		return tp.WithHTTP(&http.Client{Transport: &cliTransport{o.tid, w}, Jar: &cliJar{o.id, w}})
+		h := &http.Client{Transport: &cliTransport{o.tid, w}, Jar: &cliJar{o.id, w}}
+		// the caller's *http.Client is shared: another discharge client was built on it before, with its
+		// own credentials for every host of the pool, options in the order auth -> http.  A client must
+		// never pick up credentials configured on another client (nor write into the caller's http.Client).
+		var decoy []tp.ClientOption
+		for _, host := range cliHostPool {
+			decoy = append(decoy, tp.WithAuthentication("https://"+host, "Bearer DECOY-OTHER-CLIENT"))
+		}
+		decoy = append(decoy, tp.WithHTTP(h))
+		_ = tp.NewClient(cliFP, decoy...)
+		return tp.WithHTTP(h)
 	case "auth":
 		return tp.WithAuthentication(o.loc, o.cred)
 	case "bearer":
